@@ -203,6 +203,57 @@ func driveMux(c *hx.Ctx) error {
 		streams = append(streams, "mux_stray")
 	}
 
+	// --- queue lengths above the default and a receiver that lags: the readers start when the writers are done,
+	// the frames wait in the queues — more than the default length 256 of them, within the configured length —
+	// and small configured lengths with a lag of exactly that many frames
+	r = c.Rand("mux_lag")
+	for i, n := 0, c.Pick(6, 40); i < n; i++ {
+		q := []int{300, 1024, 257, 600}[i%4]
+		s := &xferScn{Transport: []string{"pipe", "unix"}[i%2], QLen: q, IDs: pickIDs(r, 1+r.Intn(2)), LateReaders: true, ByteLevel: q <= 300}
+		for side := 0; side < 2; side++ {
+			for _, id := range s.IDs {
+				// q-1 frames for the id (the end marker is the q-th), at least 257 of them, from 1-3 writers
+				total := q - 1
+				if i >= 4 && q > 258 {
+					total = q - 1 - r.Intn(q-258)
+				}
+				nw := 1 + r.Intn(3)
+				for w := 0; w < nw; w++ {
+					cnt := total / nw
+					if w == 0 {
+						cnt += total % nw
+					}
+					var prog []wr
+					for j := 0; j < cnt; j++ {
+						prog = append(prog, wr{ID: id, Size: r.Intn(4)})
+					}
+					s.Progs[side] = append(s.Progs[side], prog)
+				}
+			}
+		}
+		scns = append(scns, scenario{X: s})
+		streams = append(streams, "mux_lag")
+	}
+	for q := 1; q <= c.Pick(6, 12); q++ {
+		s := &xferScn{Transport: []string{"pipe", "unix"}[q%2], QLen: q, IDs: pickIDs(r, 2), LateReaders: true, ByteLevel: true}
+		for side := 0; side < 2; side++ {
+			// exactly q frames wait unread on the first id (the end marker comes when the readers run), q-1 on the second
+			var p0, p1 []wr
+			for j := 0; j < q; j++ {
+				p0 = append(p0, wr{ID: s.IDs[0], Size: smallSize(r)})
+			}
+			for j := 0; j < q-1; j++ {
+				p1 = append(p1, wr{ID: s.IDs[1], Size: smallSize(r)})
+			}
+			s.Progs[side] = [][]wr{p0}
+			if len(p1) > 0 {
+				s.Progs[side] = append(s.Progs[side], p1)
+			}
+		}
+		scns = append(scns, scenario{X: s})
+		streams = append(streams, "mux_lag")
+	}
+
 	// byte-level and medium scenarios are cheap: run them in parallel children; the
 	// multi-megabyte ones one after the other
 	var small, big []int
@@ -257,6 +308,7 @@ func driveMux(c *hx.Ctx) error {
 		"mux_sizes: the same with payloads at the chunk boundaries 0,1,max-1,max,max+1,2max-1,2max,2max+1,3max-1,3max and random sizes up to 3*max next to medium traffic; compared in Coq at the level of frame headers (size-level model), content on SHA-256 in the driver. " +
 		"mux_readbuf: one connection, 1-7 frames of 0..600 bytes queued, then one Read per frame with a buffer whose length and capacity are chosen relative to the frame (len < frame <= cap, len = frame, len > frame, len <= cap < frame, len = frame-1 with cap = frame, random); the returned count, error class and buf[:min(n,len)] are compared in Coq with Model.Mux.read_buf_step and judged by holds_readbuf (n <= len(buf) and the whole frame, or ENOMEM and the frame does not fit); non-trivial when some buffer is shorter than its frame. " +
 		"mux_stray: unix socketpair, both readers blocked (WithBlockedRead) until every writer has finished, so that the frames lie back to back in the socket buffer; the writers also write (40% of the Writes, one of the first frames always) to ids that nobody can read at the other end — one never opened there, one opened and closed with conn.Close before the start — small payloads (byte level) and multi-frame payloads (unblocked while the large payload is on its way); the open connections must get exactly their bytes (corr_bytes/holds_bytes on trunk and Reads: the model drops the stray frames and nothing else). " +
+		"mux_lag: queue lengths 257, 300, 600, 1024 (above the default 256) and 1..6 (thorough 1..12) with readers that start only when the writers have finished: up to qlen-1 frames (at least 257 for the long queues; exactly qlen for the short ones) wait unread in a connection's queue — the receiver keeps up with the CONFIGURED length, nothing may be lost or reported as overflow. " +
 		"A case is non-trivial when at least two Writes share the trunk. A trunk that does not parse into whole Writes, a Read or Write error, a missing byte or a time-out is a failing input."
 	return nil
 }
@@ -314,6 +366,15 @@ func emitXfer(c *hx.Ctx, stream string, idx int, s *xferScn, r scnResult, maxp i
 		c.ImplFail(stream, "Read/Write error, lost data or time-out although the receiver kept up: "+o.Fails[0], raw)
 	}
 	c.Count("transport."+s.Transport, 1)
+	if s.LateReaders {
+		c.Count("late_reader_scenarios", 1)
+		if s.QLen > 256 {
+			c.Count("late_reader_scenarios.queue_above_default_length", 1)
+		}
+		if o.Early {
+			c.HarnessError("%s scenario %d: the writers of a late-reader scenario ran out of credits", stream, idx)
+		}
+	}
 	if s.Blocked != "" {
 		c.Count("blocked_reader_scenarios."+s.Blocked, 1)
 		if o.Early {
